@@ -530,7 +530,7 @@ static bool model_step_inner(Model &m, Op &op) {
     case OP_COPY_ATT: {   // file/var = source, a[0] = destination file slot, a[1] = destination variable (-1 global), a[2] = index of the attribute in the source list
         if (!f.open) return skip();
         int ds = (int)op.a[0]; if (ds < 0 || ds >= (int)m.files.size()) return skip();
-        MFile &g = m.files[ds]; if (!g.open || g.readonly) return skip();
+        MFile &g = m.files[ds]; if (!g.open) return skip();
         int sv = -1, dv = -1;
         if (op.var >= 0) { sv = resolve_var(f, op.var); if (sv < 0) return skip(); }
         if (op.a[1] >= 0) { dv = resolve_var(g, (int)op.a[1]); if (dv < 0) return skip(); }
@@ -540,6 +540,7 @@ static bool model_step_inner(Model &m, Op &op) {
         MAtt src = (*sl)[i];
         if (src.name == "_FillValue" || !type_ok_for_format(src.type, g.format)) return skip();
         op.var = sv; op.a[1] = dv; op.name = src.name;
+        if (g.readonly) { op.exp_rc = NC_EPERM; return true; }   // write permission of the destination is checked first
         if (sl == dl) return true;   // copying an attribute onto itself changes nothing
         MAtt *d = find_att(*dl, src.name);
         auto pad4 = [](long long x) { return (x + 3) / 4 * 4; };
